@@ -264,10 +264,32 @@ Fixpoint status_truth (fuel : nat) (s : stree) (slot : option node) (c : cache) 
     end
   end.
 
+(* what status prints for an artifact of a stage is about THAT stage's record of it: the checksum
+   shown is the one in the stage file (for an input owned by another stage the owner's record may be
+   shown instead) *)
+Definition own_record (w : world) (sp path : bytes) (shown : artifact) : bool :=
+  match alookup sp (w_stages w) with
+  | Some (Some stg) =>
+    match art_lookup path (s_outputs stg ++ s_inputs stg) with
+    | Some a' =>
+      beqb (a_cs a') (a_cs shown) ||
+      match load_index (w_index w) (w_stages w) [] with
+      | Some idx => match find_owner idx path with
+                    | Some (_, oa) => beqb (a_cs oa) (a_cs shown)
+                    | None => false
+                    end
+      | None => false
+      end
+    | None => false
+    end
+  | _ => false
+  end.
+
 Definition spec_status_truth (w : world) (out : output) : bool :=
   match out with
   | OStatus l =>
     forallb (fun s => forallb (fun a =>
+      own_record w (fst s) (fst a) (st_art (snd a)) &&
       status_truth 8 (snd a) (get (w_root w) (comps (fst a))) (w_cache w)) (ss_arts (snd s))) l
   | _ => false
   end.
